@@ -1,12 +1,15 @@
 import Iavl.Lemmas.AvlRemove
 import Iavl.Lemmas.GetRank
 import Iavl.Lemmas.SortedMap
+import Iavl.Model.ReadCost
 /-
   C11 — every version is a balanced ordered tree; lookup by key and by rank agree with sorted order.
   The real-valued bound h ≤ 1.4405·log2(n+2) follows from `fib (h+2) ≤ n` by the classical estimate
   fib(k) ≥ φ^(k-2); the integer form is what is proved here, the implementation side is checked
-  against the real-valued form on every reported (height, size) pair. Storage-read counts are
-  measured on the implementation with nothing cached (2h+2 / 10h+10); they are not proved.
+  against the real-valued form on every reported (height, size) pair. Storage reads with nothing cached
+  are modelled as child fetches (ReadCost.lean): at most h for a lookup by key, 2h by rank; the
+  implementation's measured counts are compared with the model's exact counts (proof queries only
+  with the bound 10h+10).
 -/
 namespace Iavl.Props.C11
 open Iavl Std
@@ -56,6 +59,16 @@ theorem index_then_rank (t : Node K V) (i : Nat) (p : K × V) (ho : Ordered t) (
     rw [rank_getElem t.toList (sortedKV_toList t ho) i p h, h] at h2
     simp only [Option.some.injEq] at h2
     rw [h2]
+
+/-- a lookup by key on a tree of which only the root is in memory fetches at most `height` nodes,
+    and the height is logarithmic in the size (`fib_bound`) -/
+theorem lookup_reads_le_height (t : Node K V) (key : K) (h : AVL t) :
+    t.getReads key ≤ t.height ∧ t.hasReads key ≤ t.height ∧ fib (t.height + 2) ≤ t.size :=
+  ⟨getReads_le_height t key (AVL.heightOK t h), hasReads_le_height t key (AVL.heightOK t h), fib_le_size t h⟩
+
+/-- a lookup by rank fetches at most two nodes per level -/
+theorem rank_lookup_reads_le (t : Node K V) (i : Nat) (h : AVL t) : t.getByIndexReads i ≤ 2 * t.height :=
+  getByIndexReads_le t i (AVL.heightOK t h)
 
 theorem size_is_count (t : Node K V) (h : SizeOK t) : t.size = t.toList.length := size_eq_length t h
 
